@@ -17,7 +17,22 @@ VERIF = os.path.dirname(os.path.dirname(os.path.abspath(__file__)))
 REPO = os.environ.get("VERIF_REPO", "/repo")
 BUILD = os.path.join(VERIF, "build")
 COQ = os.path.join(VERIF, "coq")
-NPROC = int(os.environ.get("VERIF_JOBS", str(os.cpu_count() or 8)))
+def _default_jobs():
+    """All cores on an idle machine; fewer when the machine is already oversubscribed (many checks running side by
+    side), because 16 more shards then only add time-outs.  Results never depend on the number of shards."""
+    n = os.cpu_count() or 8
+    try:
+        load = os.getloadavg()[0]
+    except OSError:
+        load = 0.0
+    if load > 2 * n:
+        return max(3, n // 4)
+    if load > n:
+        return max(4, n // 2)
+    return n
+
+
+NPROC = int(os.environ.get("VERIF_JOBS", str(_default_jobs())))
 
 ENV = dict(os.environ)
 ENV.update({"CARGO_NET_OFFLINE": "true", "GOPROXY": "off", "PIP_NO_INDEX": "1"})
